@@ -490,6 +490,128 @@ for _w in ('none', 'both'):
 
 
 # ---------------------------------------------------------------------------------------------
+# irregular surveys (C08): trace ordinal -> grid position through the population mask
+
+def footer_i32(off):
+    from pyvc.npmodel import wrap_int
+    return wrap_int(mk_int(BM.U32(z3.IntVal(BM.K_FILE), zint(off))), 32, signed=True)
+
+
+class GetTraceIrregular(GetTrace):
+    """get_trace(i) on an irregular file: the population mask is (stored inline-number array != 0), read ONCE from the footer offset
+    of field 189; trace ordinal i maps to the i-th populated grid position p (ascending), and the result is V[p // nX, p % nX, lo:hi].
+    With override_unstructured_mapping=True the ordinal is a grid position itself, whatever was read before (C15)."""
+    structured = False
+    mask_loaded = False
+    override = False
+
+    def inputs(self, c):
+        from pyvc.symex import TaggedInt
+        g, rd = self.reader(c)
+        foot0 = add(g.data_start, mul(BLK, g.diskblocks))
+        stride = F(rd, 'padded_header_entry_length_bytes')
+        rd.fields['segy_traceheader_template'] = {189: TaggedInt(foot0, 'FileOffset'), 193: TaggedInt(add(foot0, stride), 'FileOffset')}
+        rd.fields['stored_header_keys'] = [189, 193]
+        grid = mul(g.nI, g.nX)
+        spec_mask = SArray((grid,), lambda idx: ops_cmp('!=', footer_i32(add(foot0, mul(4, idx[0]))), 0), 'bool')
+        if self.mask_loaded:
+            rd.fields['mask'] = spec_mask          # state invariant: a loaded mask is the population mask of the file
+        d = dict(self=rd, _g=g, index=c.sym_int('index', name='index'), min_sample_id=None, max_sample_id=None,
+                 override_unstructured_mapping=self.override, _foot0=foot0, _spec_mask=spec_mask)
+        if self.window == 'both':
+            d['min_sample_id'] = c.sym_int('lo', name='min_sample_id'); d['max_sample_id'] = c.sym_int('hi', name='max_sample_id')
+        return d
+
+    def raises(self, c, a):
+        return {}
+
+    def may_raise_at(self, c, a):
+        # bounds of irregular ordinals follow numpy sequence semantics on the populated list (see DESIGN, C14 scope)
+        return ('IndexError',)
+
+    def post(self, c, a, result):
+        if c.mode != 'verify':
+            return
+        g = a['self'].geo
+        lo, hi = self.bounds(g, a)
+        sels = c.ghost.get('mask_selects', [])
+        evs = GH.reads(c)
+        if self.override:
+            c.ensure(mk_bool(len(sels) == 0), 'override.no_ordinal_mapping')
+            p = a['index']
+        else:
+            c.ensure(mk_bool(len(sels) == 1), 'mapping.one_mask_selection')
+            if len(sels) != 1:
+                return
+            ma, k, p = sels[0]
+            j = c.sym_int('mj', lo=0, name='grid_position')
+            c.assume(lt(j, mul(g.nI, g.nX)))
+            c.ensure(eq(ma.arr.fn((j,)), j) and eq(ma.arr.shape[0], mul(g.nI, g.nX)), 'mapping.selects_among_all_grid_positions')
+            c.ensure(Iff(ma.mask.fn((j,)), a['_spec_mask'].fn((j,))), 'mapping.mask_is_stored_inline_number_nonzero')
+            c.ensure(Or(eq(k, a['index']), eq(k, add(a['index'], SInt(ma.count)))), 'mapping.selects_the_index_th_populated_position')
+        il, xl = fdiv(p, g.nX), mod(p, g.nX)
+        if isinstance(result, SArray):
+            check_array(c, result, (sub(hi, lo),))
+            e = O.skolem_index(c, (sub(hi, lo),))
+            c.ensure(result.fn(e) == O.Vpad(g, il, xl, add(lo, e[0])), 'elem')
+        else:
+            c.ensure(eq(sub(hi, lo), 1), 'scalar_only_for_length_1')
+            c.ensure(mk_bool(isinstance(result, STok)) and result == O.Vpad(g, il, xl, lo), 'elem')
+        # read log: the mask array once (unless already loaded / overridden), then the blocks of the trace
+        data = [ev for ev in evs if not (self.needs_mask_read() and ev is evs[0])]
+        if self.needs_mask_read():
+            c.ensure(mk_bool(len(evs) >= 1) and And(eq(evs[0].off, a['_foot0']), eq(evs[0].n, F(a['self'], 'header_entry_length_bytes'))), 'reads.mask_is_the_inline_number_array_read_once', kind='ghost')
+        c.ensure(mk_bool(a['self'].fields.get('mask') is not None) if not self.override or self.mask_loaded else True, 'state.mask_kept')
+        GH_within = self.data_off(g, 0), self.data_off(g, g.diskblocks)
+        for jx, ev in enumerate(data):
+            c.ensure(And(ge(ev.off, GH_within[0]), le(add(ev.off, ev.n), GH_within[1])), f'reads.data[{jx}].in_data_section', kind='ghost')
+
+    def needs_mask_read(self):
+        return not self.override and not self.mask_loaded
+
+
+for _ml in (False, True):
+    for _ov in (False, True):
+        for _w in ('none', 'both'):
+            if _w == 'both' and (_ml or _ov):
+                continue
+            _cls = type('GetTraceIrregular', (GetTraceIrregular,), dict(window=_w, mask_loaded=_ml, override=_ov))
+            register(_cls, 'read.py::SgzReader.get_trace', ['C08', 'C15', 'C02'], [CFG_DEFAULT[3], CFG_ZSLICE[0]], modes=('file',),
+                     tag=f'irregular,win:{_w},mask_loaded:{int(_ml)},override:{int(_ov)}')
+
+
+class UnstructuredMask(ReadContract):
+    """get_unstructured_mask(): mask[j] = (stored inline number of grid position j != 0); one read of the whole array at the offset of
+    field 189; a mask already loaded is kept without any read"""
+    structured = False
+    mask_loaded = False
+
+    def inputs(self, c):
+        d = GetTraceIrregular.inputs(self, c)
+        return dict(self=d['self'], _g=d['_g'], _foot0=d['_foot0'], _spec_mask=d['_spec_mask'])
+
+    window = 'none'
+    override = False
+
+    def post(self, c, a, result):
+        g = a['self'].geo
+        m = a['self'].fields.get('mask')
+        c.ensure(mk_bool(isinstance(m, SArray) and m.dtype == 'bool') and eq(m.shape[0], mul(g.nI, g.nX)), 'mask.one_flag_per_grid_position')
+        j = c.sym_int('mj', lo=0, name='grid_position')
+        c.assume(lt(j, mul(g.nI, g.nX)))
+        c.ensure(Iff(m.fn((j,)), a['_spec_mask'].fn((j,))), 'mask.is_stored_inline_number_nonzero')
+        evs = GH.reads(c)
+        if self.mask_loaded:
+            c.ensure(mk_bool(len(evs) == 0), 'reads.none_when_loaded', kind='ghost')
+        else:
+            c.ensure(mk_bool(len(evs) == 1) and And(eq(evs[0].off, a['_foot0']), eq(evs[0].n, F(a['self'], 'header_entry_length_bytes'))), 'reads.the_inline_number_array_once', kind='ghost')
+
+
+for _ml in (False, True):
+    register(type('UnstructuredMask', (UnstructuredMask,), dict(mask_loaded=_ml)), 'read.py::SgzReader.get_unstructured_mask', ['C08', 'C07', 'C15'], [CFG_DEFAULT[3]], modes=('file',), tag=f'mask_loaded:{int(_ml)}')
+
+
+# ---------------------------------------------------------------------------------------------
 # diagonals (built from traces)
 
 class Diagonal(ReadContract):
